@@ -198,7 +198,7 @@ def jsonable(x):
     if isinstance(x, dict):
         return {str(k): jsonable(v) for k, v in x.items()}
     if isinstance(x, float):
-        return x.hex() if x == x and abs(x) != float("inf") else repr(x)
+        return x if x == x and abs(x) != float("inf") else repr(x)  # json floats round-trip exactly
     if isinstance(x, (str, int, bool)) or x is None:
         return x
     try:
